@@ -19,13 +19,16 @@
 namespace GojaModel.C13
 
 inductive JVal where
-  | prim (p : Int)
-  | ref (id : Nat)
+  | prim (p : Int)      -- a primitive, or an opaque leaf object exported without recursion (typed array / ArrayBuffer:
+                        -- a slice backed by the buffer; Date; function) — also what a getter returns, if primitive
+  | ref (id : Nat)      -- an object / array (own enumerable data property, array element, or the value a getter returns)
+  | hole                -- an array hole (arrayObject.export leaves the slot nil)
 deriving DecidableEq, Repr
 
 inductive GVal where
   | prim (p : Int)
   | addr (a : Nat)
+  | nil
 deriving DecidableEq, Repr
 
 abbrev JFields := List (Nat × JVal)
@@ -53,6 +56,7 @@ def expFields (ev : ECtx → JVal → ECtx × GVal) : ECtx → JFields → ECtx 
 /-- exportValue (value.go:1136) → Object.self.export(ctx). -/
 def expVal (js : Nat → JFields) : Nat → ECtx → JVal → ECtx × GVal
   | _, c, .prim p => (c, .prim p)
+  | _, c, .hole => (c, .nil)
   | 0, c, .ref _ => ({ c with ok := false }, .prim 0)
   | fuel + 1, c, .ref id =>
     match findAddr id c.cache with
@@ -74,6 +78,7 @@ def exportRoot (js : Nat → JFields) (fuel : Nat) (root : Nat) : ECtx × GVal :
 /-- value correspondence under the object↦address map `cache` -/
 def Img (cache : List Nat) : JVal → GVal → Prop
   | .prim p, .prim q => p = q
+  | .hole, .nil => True
   | .ref id, .addr a => cache[a]? = some id
   | _, _ => False
 
@@ -85,5 +90,24 @@ def ImgFields (cache : List Nat) : JFields → GFields → Prop
 /-- a finished Go object is the image of the script object cached at its address -/
 def OutGood (js : Nat → JFields) (cache : List Nat) (e : Nat × GFields) : Prop :=
   ∃ id, cache[e.1]? = some id ∧ ImgFields cache (js id) e.2
+
+/-! ### Map and Set objects (builtin_map.go:53 mapObject.export, builtin_set.go:52 setObject.export)
+
+  As coded they do NOT consult the cache on entry — `m := make(…); ctx.put(mo.val, m)` straight away — so every visit
+  of a Map / Set allocates a new Go slice.  `isMapSet id` marks such objects; for them the model never looks the id up
+  (their own export code is the only reader of their binding). -/
+
+def expValK (js : Nat → JFields) (isMapSet : Nat → Bool) : Nat → ECtx → JVal → ECtx × GVal
+  | _, c, .prim p => (c, .prim p)
+  | _, c, .hole => (c, .nil)
+  | 0, c, .ref _ => ({ c with ok := false }, .prim 0)
+  | fuel + 1, c, .ref id =>
+    match (if isMapSet id then none else findAddr id c.cache) with
+    | some a => (c, .addr a)
+    | none =>
+      let a := c.cache.length
+      let c1 : ECtx := { c with cache := c.cache ++ [id] }
+      let (c2, fs) := expFields (expValK js isMapSet fuel) c1 (js id)
+      ({ c2 with out := c2.out ++ [(a, fs)] }, .addr a)
 
 end GojaModel.C13
